@@ -2,9 +2,9 @@
 # tools/seeded_matrix.sh: run the quick check of every property against its seeded change (default quick budget)
 cd "$(dirname "$0")/.."
 for d in seeded/*/; do
-  id=$(basename "$d")
-  git -C /repo apply "$(readlink -f "$d/patch.diff")" || { echo "$id patch does not apply"; continue; }
+  name=$(basename "$d"); id=${name%%-*}
+  git -C /repo apply "$(readlink -f "$d/patch.diff")" || { echo "$name patch does not apply"; continue; }
   out=$(VERIF_SCRATCH_EVIDENCE=/tmp/supvsim-scratch-evidence timeout 1500 ./check "$id" quick 2>&1 | grep "^VIOLATION" | head -1)
   git -C /repo checkout -- .
-  echo "$id ${out:-MISSED}"
+  echo "$name ${out:-MISSED}"
 done
